@@ -111,11 +111,15 @@ impl AccessStructure {
         encryption_hint: EncryptionHint,
         after: Option<&str>,
     ) -> Result<(), Error> {
+        // The counter may come from deserialized bytes: do not overflow it.
+        let next_id = self.next_id.checked_add(1).ok_or_else(|| {
+            Error::OperationNotPermitted("no attribute identifier left".to_string())
+        })?;
         self.dimensions
             .get_mut(&attribute.dimension)
             .ok_or_else(|| Error::DimensionNotFound(attribute.dimension.clone()))?
             .add_attribute(attribute.name, encryption_hint, after, self.next_id)?;
-        self.next_id += 1;
+        self.next_id = next_id;
 
         Ok(())
     }
@@ -412,9 +416,10 @@ mod serialization {
                 dimensions
                     .values()
                     .flat_map(Dimension::attributes)
-                    .map(|a| a.get_id() + 1)
-                    .max()
-                    .unwrap_or(0)
+                    .try_fold(0usize, |next, a| a.get_id().checked_add(1).map(|id| next.max(id)))
+                    .ok_or_else(|| {
+                        Error::ConversionFailed("attribute identifier out of range".to_string())
+                    })?
             };
             Ok(Self {
                 version: Version::V2,
